@@ -196,6 +196,16 @@ class BuiltinMixin:
         if isinstance(v, VOpt):
             inner = mk_val(v.sort.the(v.t), v.sort.inner)
             return z3.And(z3.Not(v.sort.is_none(v.t)), self.type_test(inner, tq, st))
+        if isinstance(v, VUnion):
+            tg = PyU.tag(v.t)
+            m = {"builtins.str": 1, "builtins.int": 2, "builtins.bool": 3}
+            if tq in m:
+                return z3.Or(tg == m[tq], z3.And(tq == "builtins.int", tg == 3)) if tq == "builtins.int" else tg == m[tq]
+            if self.repo.classes().get(tq) is not None or tq.startswith("ast.") or tq in self.repo_external_classes():
+                if tq in self.reg.records:
+                    return z3.BoolVal(False)
+                return z3.And(tg == 4, self.isinstance_term(VRef(PyU.r(v.t)), tq))
+            return z3.BoolVal(False)
         if isinstance(v, VRec) and v.sort == PYVAL:
             k = v.sort.get(v.t, "kind")
             m = {"builtins.str": [K_STR], "builtins.int": [K_INT, K_BOOL], "builtins.bool": [K_BOOL], "builtins.float": [K_FLOAT]}
@@ -250,6 +260,12 @@ class BuiltinMixin:
             if v.exact:
                 return [(st, self.vtype(v.cls))]
             return [(st, VType(self.cls_of(v)))]
+        if isinstance(v, VUnion):
+            tg = PyU.tag(v.t)
+            t = z3.If(tg == 1, self.class_id("builtins.str"), z3.If(tg == 2, self.class_id("builtins.int"),
+                      z3.If(tg == 3, self.class_id("builtins.bool"), z3.If(tg == 4, z3.Select(self.H_cls, PyU.r(v.t)),
+                                                                           self.class_id("builtins.NoneType")))))
+            return [(st, VType(t))]
         if isinstance(v, VRec) and v.sort == PYVAL:
             k = v.sort.get(v.t, "kind")
             ids = {K_STR: "builtins.str", K_INT: "builtins.int", K_BOOL: "builtins.bool", K_FLOAT: "builtins.float",
@@ -593,6 +609,19 @@ class BuiltinMixin:
 
     def bi_replace(self, args, kw, st, cx, node):
         return [(st, VStr(F_replace_all(args[0].t, args[1].t, args[2].t)))]
+
+    def bi_u_is_str(self, args, kw, st, cx, node):
+        return [(st, VBool(PyU.tag(args[0].t) == 1))]
+
+    def bi_u_is_obj(self, args, kw, st, cx, node):
+        return [(st, VBool(PyU.tag(args[0].t) == 4))]
+
+    def bi_u_str(self, args, kw, st, cx, node):
+        return [(st, VStr(PyU.s(args[0].t)))]
+
+    def bi_u_obj(self, args, kw, st, cx, node):
+        cls = args[1].conc() if len(args) > 1 else None
+        return [(st, VRef(PyU.r(args[0].t), cls))]
 
     def bi_float_text(self, args, kw, st, cx, node):
         "str(x) of a python float (assumed contract of CPython: shortest round-trip repr; inf/-inf/nan when not finite)"
